@@ -288,7 +288,7 @@ def squash_rule(ctx, res, rule):
     iter_models = {"std::iter::Peekable::next_if": _next_if, "std::iter::Peekable::peek": _peek, "std::iter::Iterator::next": _next,
                    "core::slice::get": _get, "core::slice::<impl [T]>::get": _get, "std::vec::Vec::get": _get}
     rows = bad = order_bad = 0
-    first_bad = first_order = None
+    first_bad = first_order = what_bad = None
     for rs, re_, ps, pe in itertools.product(range(5), repeat=4):
         if not (rs < re_ and ps < pe):
             continue
@@ -327,11 +327,20 @@ def squash_rule(ctx, res, rule):
             first_order = first_order or ((rs, re_), (ps, pe), consumed)
         if not consumed:
             continue                      # pending lies behind the ready range: handled in a later iteration
+        if listed:
+            it = merged.items[0]
+            shown = A.show(it)
+            if not (shown.startswith("((%d..%d, pidx), false)" % (ps, pe)) or shown.startswith("((%d..%d, pidx), False)" % (ps, pe))):
+                what_bad = what_bad or ((rs, re_), (ps, pe), shown[:80])
         inside = rs <= ps and pe <= re_          # wholly inside, including a pending range that ends exactly where the ready one ends
         if (not listed and not inside) or (listed and inside):
             bad += 1
             first_bad = first_bad or ((rs, re_), (ps, pe), listed)
     res.extra.setdefault("ordering_rows", {})[fn] = rows
+    if what_bad:
+        res.add(Finding(rule, fn, "pending-listed-as-itself", "for ready %s and pending %s the item that is listed is `%s`, not the pending range itself with status Pending" % what_bad, loc=loc))
+    else:
+        res.holds(rule, fn, "pending-listed-as-itself")
     if order_bad:
         r_, p_, c_ = first_order
         res.add(Finding(rule, fn, "taken-in-order", "for ready %s and pending %s the pending range is %s: a pending range is taken up in front of a ready range exactly when it begins "
